@@ -165,12 +165,18 @@ func (o *FilterOpts) real() (lint.FilterOptions, error) {
 		}
 		f.NameFilter = re
 	}
-	f.IncludeNames = o.IncludeNames
+	cp := func(l []string) []string { // the caller's own list (nil stays nil, empty stays empty)
+		if l == nil {
+			return nil
+		}
+		return append(make([]string, 0, len(l)), l...)
+	}
+	f.IncludeNames = cp(o.IncludeNames)
 	if len(o.IncludeNames) > 0 && len(o.Profiles) > 0 {
 		// the caller's own list, with room to grow: AddProfile appends to it
 		f.IncludeNames = append(make([]string, 0, len(o.IncludeNames)+4), o.IncludeNames...)
 	}
-	f.ExcludeNames = o.ExcludeNames
+	f.ExcludeNames = cp(o.ExcludeNames)
 	if o.IncludeSources != nil {
 		f.IncludeSources = lint.SourceList{}
 		for _, s := range o.IncludeSources {
